@@ -63,10 +63,15 @@ def run_one(prop, seed):
     """Generate and run the case for one seed.  Returns (kind, payload)."""
     from .terms import BuildError
     from .engine import HarnessError
+    from . import isolation
 
+    isolation.reset()
     try:
         case = prop.generate(seed)
         rep = prop.run(case)
+        drift = isolation.reset()
+        if drift:
+            rep.stats["runs_that_changed_valida_module_state"] = 1
         return "ok", rep
     except BuildError as e:
         return "discard", str(e)[:200]
@@ -77,7 +82,10 @@ def run_one(prop, seed):
 
 
 def _worker(args):
-    pid, verif_seed, start, stop, deadline, check_det = args
+    pid, verif_seed, start, stop, deadline, check_det, tier = args
+    from . import common
+
+    common.TIER = tier
     warnings.simplefilter("ignore")
     sys.setrecursionlimit(1000)
     prop = load_prop(pid)
@@ -203,6 +211,9 @@ def replay(pid, path, quiet=False):
     prop = load_prop(pid)
     body, case = read_replay(path)
     want = (body["signature"]["oracle"], body["signature"]["locus"])
+    from . import isolation
+
+    isolation.reset()
     rep = prop.run(case)
     got = rep.signature
     if not quiet:
@@ -225,12 +236,12 @@ def replay(pid, path, quiet=False):
 # --------------------------------------------------------------------------
 
 
-def fresh_digests(pid, verif_seed, n, hashseed):
+def fresh_digests(pid, verif_seed, n, hashseed, tier="quick"):
     env = dict(os.environ)
     env["PYTHONHASHSEED"] = str(hashseed)
     env["VERIF_REEXEC"] = "1"
     out = subprocess.run(
-        [sys.executable, "-m", "sim", pid, "--digests", str(n), "--seed", str(verif_seed)],
+        [sys.executable, "-m", "sim", pid, "--digests", str(n), "--seed", str(verif_seed), "--tier", tier],
         cwd=VERIF,
         env=env,
         capture_output=True,
@@ -260,6 +271,9 @@ def check(pid, tier, verif_seed, runs=None, workers=None, cap_s=None, minimise_s
     from .common import merge_stats, run_seed
     from .minimise import minimise
 
+    from . import common
+
+    common.TIER = tier
     t0 = time.monotonic()
     cfg = dict(TIERS[pid][tier])
     if runs is not None:
@@ -282,6 +296,9 @@ def check(pid, tier, verif_seed, runs=None, workers=None, cap_s=None, minimise_s
                 n_regress += 1
                 path = os.path.join(rdir, name)
                 _body, rcase = read_replay(path)
+                from . import isolation
+
+                isolation.reset()
                 rrep = prop.run(rcase)
                 if rrep.signature is not None:
                     print(f"  regression replay {name} fails again: {rrep.signature}")
@@ -290,7 +307,7 @@ def check(pid, tier, verif_seed, runs=None, workers=None, cap_s=None, minimise_s
     deadline = t0 + cfg["cap_s"]
     chunks = []
     for s in range(0, cfg["runs"], CHUNK):
-        chunks.append((pid, verif_seed, s, min(s + CHUNK, cfg["runs"]), deadline, True))
+        chunks.append((pid, verif_seed, s, min(s + CHUNK, cfg["runs"]), deadline, True, tier))
     agg, failures, harness, samples = {}, [], [], []
     nontrivial = set()
     discards = done = 0
@@ -314,7 +331,7 @@ def check(pid, tier, verif_seed, runs=None, workers=None, cap_s=None, minimise_s
     # determinism: fresh interpreter, another hash seed
     try:
         want = [[i, d] for i, d in sorted(det)]
-        got = fresh_digests(pid, verif_seed, len(want), 4242)
+        got = fresh_digests(pid, verif_seed, len(want), 4242, tier)
         if want != got:
             harness.append(f"NONDETERMINISM across interpreters/hash seeds: {want} != {got}")
     except Exception as e:
@@ -331,6 +348,9 @@ def check(pid, tier, verif_seed, runs=None, workers=None, cap_s=None, minimise_s
     for n_sig, (sig, lst) in enumerate(sorted(by_sig.items(), key=lambda kv: kv[1][0][0])):
         i, seed, detail = lst[0]
         kf = match_known(known, *sig)
+        from . import isolation
+
+        isolation.reset()
         case = prop.generate(seed)
         rep = prop.run(case)
         if rep.signature != sig:
@@ -341,6 +361,9 @@ def check(pid, tier, verif_seed, runs=None, workers=None, cap_s=None, minimise_s
         if n_sig < MAX_SIGNATURES:
 
             def same(c, _sig=sig):
+                from . import isolation
+
+                isolation.reset()
                 r = prop.run(c)
                 return r.signature == _sig
 
@@ -348,6 +371,7 @@ def check(pid, tier, verif_seed, runs=None, workers=None, cap_s=None, minimise_s
                 case, tests = minimise(case, same, seconds=minimise_s, op_variants=getattr(prop, "op_variants", None))
             except Exception as e:  # keep the un-minimised case
                 harness.append(f"minimiser failed for {sig}: {e!r}")
+        isolation.reset()
         final = prop.run(case)
         path = write_replay(
             pid,
@@ -473,6 +497,9 @@ def main(argv=None):
     try:
         if args.replay:
             return replay(pid, args.replay, quiet=args.quiet)
+        from . import common
+
+        common.TIER = args.tier
         if args.digests is not None:
             return print_digests(pid, args.seed, args.digests)
         if args.one is not None:
